@@ -508,26 +508,27 @@ impl Interpreter {
                 let length = state.stack.pop_number()?;
                 let bytes = state.stack.pop_bytes()?;
 
-                if length < 1 || length < bytes.len() as i32 {
+                // Magnitude bytes of the minimally encoded number (none for zero); one more byte is needed when
+                // the top bit of the magnitude is set, because that bit carries the sign.
+                let (sign, mut bin_array) = stack_trait::to_bigint(&bytes)?.to_bytes_le();
+                if sign == Sign::NoSign {
+                    bin_array.clear();
+                }
+                let minimal_len = match bin_array.last() {
+                    Some(top) if top & 0x80 != 0 => bin_array.len() + 1,
+                    _ => bin_array.len(),
+                };
+
+                if length < 0 || (length as usize) < minimal_len {
                     return Err(InterpreterError::InvalidStackOperation("OP_NUM2BIN failed, provide length was out of range"));
                 }
 
-                // Fill the data in, extend the buffer to the length of the length parameter
-                let (sign, mut bin_array) = stack_trait::to_bigint(&bytes)?.to_bytes_le();
+                // Extend the buffer to the requested size and put the sign into the top bit of the last byte
                 bin_array.resize(length as usize, 0);
-                let bin_array_len = bin_array.len();
-
-                let full = bin_array[bin_array_len - 1] & 0x80;
-                if full > 0 {
-                    bin_array.push(0x00);
+                if sign == Sign::Minus {
+                    let last = bin_array.len() - 1;
+                    bin_array[last] |= 0x80;
                 }
-
-                // // Add 0x00 to the end if last byte is positive sign
-                match sign {
-                    Sign::Plus => bin_array[bin_array_len - 1] |= 0x00,
-                    Sign::Minus => bin_array[bin_array_len - 1] |= 0x80,
-                    Sign::NoSign => return Err(InterpreterError::InvalidStackOperation("OP_NUM2BIN failed, invalid sign on bigint.")),
-                };
                 state.stack.push_bytes(bin_array);
             }
             OpCodes::OP_BIN2NUM => {
